@@ -201,6 +201,14 @@ int main(int argc, char **argv) {
                 Verdict v = check_spanner<double>(t, k);
                 st.evaluations++; st.counts["spanner"]++;
                 if (!v.ok()) { st.violations++; if (st.counts["viol_spanner_" + v.kind]++ < 2) emit_violation("BaseApproxSpannerAlgorithm::construct_spanner", v.kind, v.detail, "{\"graph\":" + t.str() + ",\"algo\":\"spanner\",\"k\":" + std::to_string(k) + "}"); }
+                // the same graph with every weight scaled by an extreme power of two: still exact-domain (dyadic scaling is exact), but
+                // absolute tolerances hidden in the scan order show only there (seed S64)
+                if (k >= 2 && t.m() >= 3) for (int j : {-60, 40}) {
+                    TGraph h = t; for (auto &x : h.w) x = std::ldexp(x, j); h.tag = t.tag + "*2^" + std::to_string(j);
+                    Verdict vs = check_spanner<double>(h, k);
+                    st.evaluations++; st.counts["spanner-scaled"]++;
+                    if (!vs.ok()) { st.violations++; if (st.counts["viol_spanner_" + vs.kind]++ < 2) emit_violation("BaseApproxSpannerAlgorithm::construct_spanner", vs.kind, vs.detail, "{\"graph\":" + h.str() + ",\"algo\":\"spanner\",\"k\":" + std::to_string(k) + "}"); }
+                }
             }
 #endif
         }
